@@ -224,3 +224,7 @@ func MapOrdersIn(fn string) {}
 // separated substrings run under the cooperative scheduler (all schedules explored). Natively a no-op:
 // the Go runtime schedules.
 func Sched(list string) {}
+
+// SchedPreempt(n): bound on preemptive context switches per path in the engine's scheduler (default 1);
+// switches at blocking operations are never bounded.
+func SchedPreempt(n int) {}
